@@ -477,6 +477,8 @@ func (r *rewriter) renderSelect(s *ast.SelectStmt) string {
 	if len(s.Body.List) == 0 {
 		return "__vsched.BlockForever()"
 	}
+	// The layout of the original is kept line for line: only `select {` and the `case …:` /
+	// `default:` headers are replaced; clause bodies are spliced from the original text.
 	var b strings.Builder
 	var names, inits []string
 	type clause struct {
@@ -512,18 +514,20 @@ func (r *rewriter) renderSelect(s *ast.SelectStmt) string {
 		idx++
 	}
 	if len(names) == 0 {
-		// only a default clause: run it
-		fmt.Fprintf(&b, "switch {\ndefault:\n")
+		b.WriteString("switch {")
 	} else {
-		fmt.Fprintf(&b, "switch %s := %s; __vsched.Select(%v, %s) {\n", strings.Join(names, ", "), strings.Join(inits, ", "), hasDefault, strings.Join(names, ", "))
+		fmt.Fprintf(&b, "switch %s := %s; __vsched.Select(%v, %s) {", strings.Join(names, ", "), strings.Join(inits, ", "), hasDefault, strings.Join(names, ", "))
 	}
-	for _, c := range cls {
-		if c.index < 0 {
-			if len(names) != 0 {
-				fmt.Fprintf(&b, "case %d:\n", idx)
-			}
-		} else {
-			fmt.Fprintf(&b, "case %d:\n", c.index)
+	// text between `{` and the first clause (comments, newlines)
+	b.WriteString(r.text(r.off(s.Body.Lbrace)+1, r.off(cls[0].cc.Pos())))
+	for k, c := range cls {
+		switch {
+		case c.index < 0 && len(names) == 0:
+			b.WriteString("default:")
+		case c.index < 0:
+			fmt.Fprintf(&b, "case %d:", idx)
+		default:
+			fmt.Fprintf(&b, "case %d:", c.index)
 			if as, ok := c.cc.Comm.(*ast.AssignStmt); ok {
 				var l []string
 				for _, e := range as.Lhs {
@@ -531,17 +535,21 @@ func (r *rewriter) renderSelect(s *ast.SelectStmt) string {
 				}
 				op := as.Tok.String()
 				if len(as.Lhs) == 2 {
-					fmt.Fprintf(&b, "%s %s %s.Val2()\n", strings.Join(l, ", "), op, c.name)
+					fmt.Fprintf(&b, " %s %s %s.Val2();", strings.Join(l, ", "), op, c.name)
 				} else {
-					fmt.Fprintf(&b, "%s %s %s.Val()\n", l[0], op, c.name)
+					fmt.Fprintf(&b, " %s %s %s.Val();", l[0], op, c.name)
 				}
-				// a variable bound by := may be unused only if the original was unused too (compile error there as well)
 			}
 		}
-		for _, st := range c.cc.Body {
-			b.WriteString(r.node(st))
-			b.WriteString("\n")
+		end := r.off(s.Body.Rbrace)
+		if k+1 < len(cls) {
+			end = r.off(cls[k+1].cc.Pos())
 		}
+		b.WriteString(r.text(r.off(c.cc.Colon)+1, end))
+	}
+	if len(names) != 0 {
+		// keeps the statement terminating when every clause is (as the select was)
+		b.WriteString("default: panic(\"vsched: bad select index\") ")
 	}
 	b.WriteString("}")
 	return b.String()
